@@ -47,6 +47,7 @@ func main() {
 	flag.BoolVar(&cfg.DeadlockOK, "deadlock-ok", false, "a global deadlock ends the path without a violation")
 	flag.IntVar(&cfg.PreemptBound, "preempt", -1, "preemption bound (-1 = unbounded)")
 	flag.IntVar(&cfg.MaxSleeps, "max-sleeps", 6, "bound on time.Sleep calls per thread")
+	flag.IntVar(&cfg.Witnesses, "witnesses", 3, "completed paths per harness exported as native-replay witnesses")
 	flag.StringVar(&run, "run", ".*", "regexp selecting harness functions (VH_*)")
 	flag.StringVar(&out, "out", "", "write JSON report here")
 	flag.StringVar(&list, "list", "", "only list harnesses matching the regexp")
